@@ -202,3 +202,78 @@ def twin_sweep(long_b: envs.Bundle, short_b: envs.Bundle, T: int, base_words, sa
     fn = _TWIN[k][2]
     first, reached, keys, acts = fn(envs.make_key(base_words), jnp.asarray(salt, jnp.int32), jnp.arange(n_eps))
     return np.asarray(first), np.asarray(reached), np.asarray(keys), np.asarray(acts)
+
+
+_TRACES: dict = {}
+
+
+def traces(b: envs.Bundle, base_words, salt: int, n_eps: int, n_steps: int, policy: str = "legal_hash",
+           chaos: bool = True):
+    """Like sweep(), without a predicate: returns per-episode summaries (host arrays) - number of steps, ended by LAST,
+    sum / number of non-zero / largest absolute reward, smallest number of masked-in actions seen, number of steps
+    whose action was masked out - plus key words and actions.  Used to pick *rare* episodes out of thousands for the
+    host-side reference-model monitors."""
+    import jax
+    import jax.numpy as jnp
+
+    k = (id(b), n_steps, policy, bool(chaos))
+    if k not in _TRACES:
+        env = b.env
+        pol = envs.deep_policy(b, policy)
+        raw = envs._legal_hash_policy(None, b.act_dtype, b.amin, b.amax)
+        has_mask = b.layout is not None
+
+        def legal_count(ts):
+            return jnp.sum(ts.observation.action_mask.astype(jnp.int32)) if has_mask else jnp.asarray(0, jnp.int32)
+
+        def one(key0, salt_, e):
+            key = jax.random.fold_in(key0, e)
+            s, ts = env.reset(key)
+            chaotic = ((e % 4) == 3) & chaos
+
+            def body(c, i):
+                s1, t1, done, n, rsum, rnz, rmax, lmin = c
+                a_legal = pol(env, s1, t1, i, salt_ + e)
+                a_raw = raw(env, s1, t1, i, salt_ + e + 7)
+                use_raw = chaotic & (jax.random.randint(jax.random.fold_in(key, i), (), 0, 6) == 0)
+                a = jnp.where(use_raw, a_raw, jnp.asarray(a_legal).astype(b.act_dtype)).astype(b.act_dtype)
+                s2, t2 = env.step(s1, a)
+                live = ~done
+                r = jnp.asarray(t2.reward, jnp.float32).reshape(-1)
+                rsum = rsum + jnp.where(live, jnp.sum(r), 0.0)
+                rnz = rnz + (live & jnp.any(r != 0)).astype(jnp.int32)
+                rmax = jnp.maximum(rmax, jnp.where(live, jnp.max(jnp.abs(r)), 0.0))
+                lmin = jnp.minimum(lmin, jnp.where(live & ~t2.last(), legal_count(t2), lmin))
+                n = n + live.astype(jnp.int32)
+                s3, t3 = jax.tree_util.tree_map(lambda x, y: jnp.where(done, x, y), (s1, t1), (s2, t2))
+                return (s3, t3, done | t2.last(), n, rsum, rnz, rmax, lmin), a
+
+            init = (s, ts, jnp.asarray(False), jnp.asarray(0, jnp.int32), jnp.asarray(0.0, jnp.float32),
+                    jnp.asarray(0, jnp.int32), jnp.asarray(0.0, jnp.float32), legal_count(ts))
+            (_, _, done, n, rsum, rnz, rmax, lmin), acts = jax.lax.scan(body, init, jnp.arange(n_steps))
+            return n, done, rsum, rnz, rmax, lmin, key, acts
+
+        _TRACES[k] = (b, jax.jit(jax.vmap(one, in_axes=(None, None, 0))))
+    out = _TRACES[k][1](envs.make_key(base_words), jnp.asarray(salt, jnp.int32), jnp.arange(n_eps))
+    return [np.asarray(x) for x in out]
+
+
+def rare_episodes(b, base_words, salt, n_eps, n_steps, take, pick, policy="legal_hash", chaos=True):
+    """Group the episodes of one traces() batch by what happened in them - (ended?, length bucket, sign and magnitude of
+    the return, number of rewarded steps, largest single reward, fewest legal actions) - and return one episode of each
+    of the `take` rarest groups (`pick` selects inside a group): [(signature, group size, key words, actions)]."""
+    n, done, rsum, rnz, rmax, lmin, keys, acts = traces(b, base_words, salt, n_eps, n_steps, policy, chaos)
+
+    def lg(x):
+        return int(np.round(np.log2(abs(float(x)) + 1.0) * 2))
+
+    groups = {}
+    for e in range(len(n)):
+        sig = (bool(done[e]), int(n[e]).bit_length(), int(np.sign(rsum[e])), lg(rsum[e]), min(int(rnz[e]), 6), lg(rmax[e]),
+               min(int(lmin[e]), 3), e % 4 == 3 and chaos)
+        groups.setdefault(sig, []).append(e)
+    out = []
+    for sig in sorted(groups, key=lambda g: (len(groups[g]), g))[:take]:
+        e = groups[sig][pick % len(groups[sig])]
+        out.append((sig, len(groups[sig]), [int(keys[e][0]), int(keys[e][1])], [np.asarray(a) for a in acts[e][: int(n[e])]]))
+    return out, len(groups)
